@@ -148,6 +148,11 @@ pub struct BridgeSpec {
     /// pipe or a TLS stream can report is an error of that operation and ends the bridge with it
     #[serde(default)]
     pub err_kind: u8,
+    /// the application first reads from the stream itself - one `poll_read` with a buffer of that many bytes (0 = none), which may
+    /// take only the beginning of a frame - and converts the stream into the bridge afterwards (a protocol preamble read by hand,
+    /// then `into_copy_bidirectional`): the rest of that frame and everything after it must be relayed as usual
+    #[serde(default)]
+    pub pre_read: u8,
 }
 pub const LOCAL_ERR_KINDS: [std::io::ErrorKind; 12] = [
     std::io::ErrorKind::ConnectionAborted,
@@ -1035,7 +1040,56 @@ pub fn spawn_end(sp: &Spawner, keep: &Keeper, side: Side, s: MuxStream, stream: 
         let local = ScriptedLocal::new(b.clone(), log.clone(), parking.clone());
         let log2 = log.clone();
         let plain = b.plain;
+        let pre_read = b.pre_read as usize;
+        let parking3 = parking.clone();
+        let mut local = local;
+        let mut s = s;
         sp.spawn(format!("s{stream}e{end}bridge"), TaskKind::StreamUser(side), async move {
+            if pre_read > 0 {
+                let mut buf = vec![0u8; pre_read];
+                // (an application that waits for a preamble the peer never sends is its own problem: the hand-made read gives up
+                // when the last scripted wake-up, Wake(3), has fired, and the stream goes to the bridge untouched)
+                let parking2 = parking3.clone();
+                let got = poll_fn(|cx| {
+                    let mut rb = ReadBuf::new(&mut buf);
+                    match Pin::new(&mut s).poll_read(cx, &mut rb) {
+                        Poll::Pending => {
+                            let mut g = parking2.0.borrow_mut();
+                            if g.woken.contains(&3) {
+                                Poll::Ready(Ok(None))
+                            } else {
+                                g.wakers.push((3, cx.waker().clone()));
+                                Poll::Pending
+                            }
+                        }
+                        Poll::Ready(Ok(())) => Poll::Ready(Ok(Some(rb.filled().len()))),
+                        Poll::Ready(Err(e)) => Poll::Ready(Err(e)),
+                    }
+                })
+                .await;
+                match got {
+                    Ok(None) => {}
+                    Ok(Some(n)) => {
+                        log2.app(AppEv::Note(format!("pre-read {n}")));
+                        let dir = 1 - end;
+                        for (i, b) in buf[..n].iter().enumerate() {
+                            let want = pay(stream, dir, i);
+                            if *b != want {
+                                log2.app(AppEv::DataMismatch { stream, end, offset: i, got: *b, want });
+                                break;
+                            }
+                        }
+                        if n > 0 {
+                            log2.app(AppEv::Note(format!("exposed {stream} {end} {n}")));
+                            log2.app(AppEv::ReadOk { stream, end, n });
+                        } else {
+                            log2.app(AppEv::ReadEof { stream, end });
+                        }
+                        local.woff = n;
+                    }
+                    Err(e) => log2.app(AppEv::ReadErr { stream, end, kind: err_kind(&e) }),
+                }
+            }
             let r = if plain {
                 let fut = s.into_copy_bidirectional(local);
                 let mut fut = std::pin::pin!(fut);
